@@ -3,7 +3,7 @@
    every size, every (Ne, nPg); none has a hypothesis relating Ne, nPg and tensor dimensions.
    The model is tied to /repo by the exact differential correspondence of props/C12.py. *)
 From Coq Require Import List Arith Bool ZArith QArith Lia.
-From EFModel Require Import C12_FeShape C12_FeTensor C12_FeProofs C12_FeQ.
+From EFModel Require Import C12_FeShape C12_FeTensor C12_FeProofs C12_FeFlat C12_FeQ.
 Import ListNotations.
 Local Open Scope nat_scope.
 
@@ -140,3 +140,9 @@ Proof.
   - rewrite np_bcast_nil_r. rewrite (Nat.max_comm (length t)). apply np_bcast_plain_fe.
 Qed.
 Print Assumptions C12_shape_of_aligned_ufunc.
+
+(* ---------------------------------------------------------------------------------- *)
+(* the bridge between numpy's flat C-ordered data and the index functions is lossless  *)
+(* ---------------------------------------------------------------------------------- *)
+Definition C12_flat_roundtrip := to_flat_of_flat.
+Print Assumptions to_flat_of_flat.
